@@ -23,6 +23,12 @@ def scenarios(tier, seed):
             out.append(dict(net=net, space=sd, option=o, policy="on_t_sample", isp="none", n_req=1, calls=["iterate_n:3", "fetch", "iterate", "fetch", "finalize"], fields=F[o]))
             out.append(dict(net=net, space=sd, option=o, policy="on_t_sample", isp="none", n_req=3, calls=["run:1", "fetch", "finalize", "init", "iterate", "fetch"], unwind=4,
                             fields=("t_sample", "t_max"), max_paths=120))
+    # a second, LARGER script set up in the same process (buffers / scratch storage sized by an earlier simulation)
+    for o in OPTS:
+        for (n1, s1, n2, s2) in (("none", ("grid", 1, 1, 1, 0), "ABC_bi", ("grid", 2, 2, 1, 4)), ("AB_rev", ("graph", "pair"), "ABC_bi", ("graph", "triangle")),
+                                 ("AB_rev", ("grid", 2, 1, 1, 0), "order3_repeat", ("graph", "path_isolated")), ("none", ("graph", "pair"), "chstt_B", ("grid", 3, 1, 1, 1))):
+            out.append(dict(net=n1, space=s1, option=o, policy="on_iteration", isp="none", n_req=1, calls=["iterate", "fetch", "finalize", "init2", "iterate", "iterate", "fetch", "finalize"],
+                            other=(n2, s2, o), fields=("state",) if o == "euler" else (), max_paths=80, budget_s=90))
     # initial-state processing modes (Poisson / redistribution draw stubs; sub-molecule and empty cells are solver-chosen)
     for o in OPTS:
         for isp in ("auto", "Poisson", "redist"):
@@ -71,4 +77,6 @@ def run(rec):
 
 
 def _jsonable(s):
-    return {k: (list(v) if isinstance(v, tuple) else v) for k, v in s.items()}
+    def j(v):
+        return [j(x) for x in v] if isinstance(v, (tuple, list)) else v
+    return {k: j(v) for k, v in s.items()}
